@@ -547,10 +547,10 @@ type EthEvent struct {
 	DupTrackers []string          `json:"dupTrackers"`
 }
 
-func ethBal(s *AbsState) map[string]int64 {
+func ethBal(s *AbsState, cur string) map[string]int64 {
 	out := map[string]int64{}
 	for o, m := range s.Bal {
-		if v, ok := m["ETH"]; ok {
+		if v, ok := m[cur]; ok {
 			out[o] = v
 		}
 	}
@@ -562,7 +562,7 @@ func ethTrk(s *AbsState) (map[string]EthTrk, []string) {
 	for n, t := range s.Trackers {
 		parts := splitN(n, ":")
 		e := EthTrk{Store: t.Store, Owner: t.Owner, Wits: t.Wits, Votes: t.Votes, State: t.State, Type: "lock"}
-		if t.Type == 2 {
+		if t.Type == 2 || t.Type == 4 { // ProcessTypeRedeem, ProcessTypeRedeemERC
 			e.Type = "redeem"
 		}
 		if len(parts) == 4 {
@@ -629,12 +629,16 @@ func EthEvents(t int, sc *Scenario, tr *Transcript) []EthEvent {
 	}
 	var capv int64
 	fmt.Sscan(sc.Genesis.EthSupplyCap, &capv)
-	evs := []EthEvent{{T: t, Ev: "Init", Bal: ethBal(tr.InitState), Wits: wits, Cap: capv, Txs: []EthTxEv{}, Trk: map[string]EthTrk{}, DupTrackers: []string{}}}
+	cur := "ETH"
+	if sc.Genesis.Erc20 {
+		cur = "TTC" // the erc20 workloads move the token's wrapped currency only
+	}
+	evs := []EthEvent{{T: t, Ev: "Init", Bal: ethBal(tr.InitState, cur), Wits: wits, Cap: capv, Txs: []EthTxEv{}, Trk: map[string]EthTrk{}, DupTrackers: []string{}}}
 	for _, b := range tr.Blocks {
 		if b.State == nil {
 			break
 		}
-		e := EthEvent{T: t, Ev: "Block", H: b.H, Cap: capv, Wits: wits, Txs: []EthTxEv{}, Bal: ethBal(b.State)}
+		e := EthEvent{T: t, Ev: "Block", H: b.H, Cap: capv, Wits: wits, Txs: []EthTxEv{}, Bal: ethBal(b.State, cur)}
 		e.Trk, e.DupTrackers = ethTrk(b.State)
 		for _, tx := range b.Txs {
 			if !accepted(tx) {
